@@ -427,6 +427,7 @@ MANIFEST_META = {
                   "of square for exp with six coefficient types, Study numbers scalar + vector/blade of any grade for sqrt, invertible "
                   "Fraction operands for integer powers -4..4, positive squared norm for norm/normalized) and every identity of the "
                   "statement is checked against an exact reference at 1e-9."
-                  " Also: the outer series of the empty multivector, integer powers inside a registered function, Study-number norms with a pseudoscalar part, graded algebras.",
+                  " Also: the outer series of the empty multivector, integer powers inside a registered function, Study-number norms with a pseudoscalar part, graded algebras."
+                  " The outer series (also of 0.123456789*x) written out in a registered function.",
     "level_note": "Trusted: kv.refops, Fractions, sympy evalf for the symbolic exp. d<=6 for the outer series, d<=4/5 elsewhere.",
 }
